@@ -68,6 +68,7 @@ type Runner struct {
 	seen        map[string]bool
 	outcomeOf   func(c *Case) string
 	maxProblems int
+	perClause   map[string]int
 }
 
 func NewRunner(prop string) *Runner {
@@ -171,7 +172,13 @@ func (r *Runner) Submit(c *Case) {
 
 func (r *Runner) addProblem(p *Problem) {
 	r.sum.ProblemCount++
-	if len(r.sum.Problems) < r.maxProblems {
+	// a few per (kind, clause): many instances of one finding (a known one, say) must not crowd out another
+	if r.perClause == nil {
+		r.perClause = map[string]int{}
+	}
+	k := p.Kind + "|" + p.Clause
+	r.perClause[k]++
+	if r.perClause[k] <= 8 && len(r.sum.Problems) < 400 {
 		r.sum.Problems = append(r.sum.Problems, p)
 	}
 }
